@@ -85,6 +85,28 @@ class Rec:
         if reason not in self.inconclusive_reasons:
             self.inconclusive_reasons.append(reason)
 
+    def merge_file(self, path):
+        """Fold in what a forked helper process (pty session child) recorded with its own Rec(path).
+        Returns False when that process never wrote its summary."""
+        viol, s = _collect(path)
+        for v in viol:
+            self.nviol += 1
+            self._emit(v)
+        if s is None:
+            return False
+        self.evaluations += s["evaluations"]
+        self.keys.update(s["keys"])
+        for k, n in s["counters"].items():
+            self.counters[k] = self.counters.get(k, 0) + n
+        for k, vals in s["sets"].items():
+            self.sets.setdefault(k, set()).update(vals)
+        for cls, lst in s["samples"].items():
+            cur = self.samples.setdefault(cls, [])
+            cur.extend(lst[: max(0, 2 - len(cur))])
+        for r in s["inconclusive"]:
+            self.inconclusive(r)
+        return True
+
     def _emit(self, obj):
         self._fh.write(json.dumps(obj, default=repr, ensure_ascii=True) + "\n")
         self._fh.flush()
